@@ -135,6 +135,8 @@ def run_case(route, domain, linear, method, strict, planted=False, pre=()):
     def history(prob, relaxed_only):
         # earlier solves of the SAME problem object (their outcome is not the subject here)
         for m, s_ in pre:
+            if m.startswith("@"):
+                continue
             with stubs.patched(stubs.MinimizeStub("fixed"), stubs.LinprogStub("fixed")), warnings.catch_warnings():
                 warnings.simplefilter("ignore")
                 try:
@@ -149,6 +151,13 @@ def run_case(route, domain, linear, method, strict, planted=False, pre=()):
             p.subject_to(c)
         history(p, False)
         expected = [v.name for v in p.variables if any(v is e for e in elems)]
+        # the solve under test runs on a CLONE of the problem (copy.deepcopy / copy.copy): integrality is part of the model
+        import copy as _copy
+        for m, _s in pre:
+            if m == "@deepcopy":
+                p = _copy.deepcopy(p)
+            elif m == "@copy":
+                p = _copy.copy(p)
         nonc = [v.name for v in p.variables if v.domain != "continuous"]
         binb = [(v.name, v.lb, v.ub) for v in p.variables if v.domain == "binary"]
         ms, ls = stubs.MinimizeStub("fixed"), stubs.LinprogStub("fixed")
@@ -262,6 +271,9 @@ def items(tier, seed):
                         other = "highs" if linear else "SLSQP"
                         for pre in ([(method, False)], [(method, True)], [(other, False), (method, False)]):
                             hist.append((route, domain, linear, method, strict, False, tuple(pre)))
+                        if method in ("auto", "SLSQP"):
+                            for pre in ([("@deepcopy", False)], [(method, False), ("@deepcopy", False)], [("@copy", False)]):
+                                hist.append((route, domain, linear, method, strict, False, tuple(pre)))
     for ch in K.chunks(hist, 16):
         its.append(("cases", ch))
     return its
@@ -316,7 +328,14 @@ def replay(payload):
     ss.minimize, scipy.optimize.linprog = fm, fl
     exc = None
     try:
+        import copy as _copy
         for m_, s_ in payload.get("pre", []):
+            if m_ == "@deepcopy":
+                p = _copy.deepcopy(p)
+                continue
+            if m_ == "@copy":
+                p = _copy.copy(p)
+                continue
             with warnings.catch_warnings():
                 warnings.simplefilter("ignore")
                 try:
@@ -360,6 +379,8 @@ def replay(payload):
         with warnings.catch_warnings():
             warnings.simplefilter("ignore")
             for m_, s_ in payload.get("pre", []):
+                if m_.startswith("@"):
+                    continue
                 try:
                     p2.solve(method=m_, strict=False)
                 except Exception:  # noqa: BLE001
